@@ -12,7 +12,7 @@ TEXT = {
     "C06": "partial proof: whole-pipeline statement proved on four slices for inputs of any length (escaped text, verbatim fenced code, emphasis nests = the spec's delimiter procedure, a shortcut reference against one definition); for general documents: denotation oracle on serialised abstract documents (lib/docgen.py) plus model/implementation HTML correspondence",
     "C07": "full proof on the model: C07_final (for every input, every reference matcher, every configuration without tag filter, rendered HTML is in the safe grammar); C07_render_safeW holds for every tree whose leaves satisfy bokW and the run evaluates bokW on the implementation's own trees; tie: model renderer on the implementation's tree = implementation's bytes",
     "C08": "full proof on the stream-layer model: readline under any read schedule (readline_sim), whole NextBlock (next_block_sim), whole runs and the fault clause (C08_stream_eq, C08_fault), any block machine satisfying three stated laws; tie: streaming implementation under generated schedules/faults vs the in-memory model on the delivered prefix",
-    "C09": "partial proof: the block-quote clause at the block layer is proved for every tab-free document (parseBlocks_quote: one quote whose children are the blocks of D under the position map, definitions included); end to end with rendering on slices (text lines behind '> ', a bullet or an ordered marker); the inline pass inside the quote for general D and the list-item clause: nesting oracle on the implementation (D vs contents of quote(D) / item(D), safe-mode HTML) plus model/implementation correspondence on each variant",
+    "C09": "proof on the model at the block layer of both clauses for every tab-free document: quoting (parseBlocks_quote) and list-indenting under any bullet or ordered marker with 1-4 spaces (parseBlocks_item) give one container whose children are the blocks of D under the explicit position map, definitions included; end to end with rendering on slices; the inline pass inside the container and the rendering for general D: nesting oracle on the implementation (D vs contents of quote(D) / item(D), safe-mode HTML) plus model/implementation correspondence on each variant",
     "C10": "full proof on the model: Walk with the renderer's callbacks writes exactly the structural reading renderB of the tree, for every block and configuration (C10_appendBlock, walk_is_spec); tie: the structural renderer run on the implementation's own tree dump reproduces the implementation's bytes in all 30 configurations; determinism / tree untouched / joining observed on the implementation",
     "C11": "proof that the openers_bottom search bounds never change the result of process-emphasis (abstract lists of any length, and on the transcription of processEmphasis); full statement proved end to end on a vertical slice (C11_slice2: lines of any length over letters, digits, spaces, '*', '_', most ASCII punctuation, Unicode white space, Unicode punctuation and non-ASCII letters from explicit families parse to exactly the forest the spec's delimiter-run procedure denotes); flanking flags and tokenisation tied by exhaustive correspondence up to a length bound; oracle = independent transcription of the spec procedure without the bound",
     "C12": "partial proof: closure clause for every input and matcher (C12_closure), Extract = first-wins fold in source order; label normalisation = the CommonMark definition for labels in one span, adjacent spans, and spans with gaps (container prefixes, Indent entries) under the entry conditions the block layer establishes (label_norm_spans); end to end on a slice (C12_refslice); case-folding table generated from x/text and judged against an independent normaliser",
